@@ -150,7 +150,6 @@ func runC17(c *report.Ctx) {
 	}
 }
 
-
 func replayC17(c *report.Ctx, raw json.RawMessage) string {
 	var cs trigx.Case
 	if err := json.Unmarshal(raw, &cs); err != nil {
